@@ -103,6 +103,9 @@ MATRIX = {
     "recursive-type-property": (OCCURS_PROGRAMS["Property.0"], 1),
     "recursive-type-range": (OCCURS_PROGRAMS["Func.range"], 1),
     "recursive-type-bindings": (OCCURS_PROGRAMS["Func.bindings"], 1),
+    "recursive-type-second-binding-only": ("let f x y = y;\nlet a = f f num;\nres / on get -> <a>;\n", 1),
+    "recursive-type-first-of-two-bindings": ("let f x y = x y x;\nres / on get -> <{}>;\n", 1),
+    "two-parameter-function-ok": ("let f x y = x & y;\nres / on get -> <f {} { 'a num }>;\n", 0),
 }
 
 
@@ -305,7 +308,7 @@ def occurs_lemma(o, S, M, E, children, bad):
                     continue
                 if e[1] == "occurs":
                     ok = True
-                elif kind == "vec":
+                elif kind == "vec" and e[1].endswith("Iterator::any"):
                     # an iterator adaptor fed with the child: its closure must recurse on the element
                     for a in e[2]:
                         for s in ms.subterms(a):
@@ -327,6 +330,18 @@ def occurs_lemma(o, S, M, E, children, bad):
                 bad.append(("occurs", "occurs(a, b) returns false for b = %s(..) without looking at %s" % (v, label), label))
         if not seen_feasible:
             o.inconc("occurs: no false-returning path is feasible for variant %s (vacuous)" % v)
+    # a positive answer from any child, or a == b, must make the answer positive
+    for p in outs:
+        if p.kind != "return":
+            continue
+        pos = [a for a, op, v in p.pc if op == "==" and v is True and
+               ((a[0] == "app" and a[1] == "occurs") or (a[0] == "op" and a[1] == "Eq" and set((a[2], a[3])) == set((A, B))))]
+        if pos:
+            okp = p.ret == ms.TRUE
+            o.query("occurs: a == b or a positive child makes the answer true", "mirsym/structural", "unsat" if okp else "violated", 0,
+                    path=mirlib.fmt_pc(p.pc)[:200])
+            if not okp:
+                bad.append(("occurs", "occurs(a, b) does not return true although a == b or a child contains a", "Func.range"))
     if not examined_any:
         o.inconc("occurs examines no child at all (lemma vacuous or translator problem)")
     mirlib.check_translator(o, ex, "occurs")
